@@ -511,7 +511,8 @@ class T(_np.ndarray):
         r = r[0] if len(r) == 1 and isinstance(r[0], (tuple, list)) else r
         return wrap(_np.tile(_np.asarray(s), r))
     def expand(s, *r): return wrap(_np.broadcast_to(_np.asarray(s), r).copy())
-    def flatten(s, *a): return wrap(_np.asarray(s).reshape(-1))
+    def flatten(s, start_dim=0, end_dim=-1): return _flatten_fn(s, start_dim, end_dim)      # torch semantics (was: always a full flatten)
+    def unflatten(s, dim, sizes): return _Unflatten(dim, sizes)(s)
     def sum(s, axis=None, dim=None, keepdim=False, keepdims=False, **k):
         ax = axis if axis is not None else dim
         return _ret(_np.sum(_np.asarray(s), axis=ax, keepdims=keepdim or keepdims))
@@ -1026,6 +1027,15 @@ def make_torch():
     la.__dict__['norm'] = lambda x, dim=None, axis=None, keepdim=False, **k: _ew1(lambda e: mk('sqrt', e), _sum(wrap(x) * wrap(x), axis=dim if dim is not None else axis, keepdim=keepdim))
     d['linalg'] = la
     d['norm'] = la.__dict__['norm']
+    d['lt'] = d['less'] = lambda a, b: wrap(a) < b
+    d['gt'] = d['greater'] = lambda a, b: wrap(a) > b
+    d['le'] = d['less_equal'] = lambda a, b: wrap(a) <= b
+    d['ge'] = d['greater_equal'] = lambda a, b: wrap(a) >= b
+    d['eq'] = lambda a, b: wrap(a) == b
+    d['ne'] = d['not_equal'] = lambda a, b: wrap(a) != b
+    d['neg'] = d['negative'] = lambda a: -wrap(a)
+    d['true_divide'] = d['divide'] = lambda a, b: wrap(a) / wrap(b)
+    d['multiply'] = lambda a, b: wrap(a) * wrap(b)
     def _vector_norm(x, ord=2, dim=None, keepdim=False, **k):
         if ord not in (2, 2.0): raise TraceError('vector_norm with ord = %r is not supported' % (ord,))
         return la.__dict__['norm'](x, dim=dim, keepdim=keepdim)
@@ -1110,6 +1120,21 @@ def make_numpy():
     d['subtract'] = lambda a, b: wrap(a) - wrap(b)
     d['add'] = lambda a, b: wrap(a) + wrap(b)
     d['multiply'] = lambda a, b: wrap(a) * wrap(b)
+    # function spellings of operators (a clean-up may write np.less(a, b) for a < b, np.logical_and(p, q) for p & q, ...)
+    d['divide'] = d['true_divide'] = lambda a, b: wrap(a) / wrap(b)
+    d['negative'] = lambda a: -wrap(a)
+    d['less'] = lambda a, b: wrap(a) < b
+    d['greater'] = lambda a, b: wrap(a) > b
+    d['less_equal'] = lambda a, b: wrap(a) <= b
+    d['greater_equal'] = lambda a, b: wrap(a) >= b
+    d['equal'] = lambda a, b: wrap(a) == b
+    d['not_equal'] = lambda a, b: wrap(a) != b
+    d['logical_and'] = lambda a, b: wrap(a) & wrap(b)
+    d['logical_or'] = lambda a, b: wrap(a) | wrap(b)
+    d['logical_not'] = lambda a: ~wrap(a)
+    d['iscomplexobj'] = lambda x: any(isinstance(e, (CE, complex)) for e in _np.asarray(x, dtype=object).reshape(-1))
+    d['isrealobj'] = lambda x: not d['iscomplexobj'](x)
+    d['asanyarray'] = d['ascontiguousarray'] = lambda x, *a, **k: x if isinstance(x, T) else wrap(x)
     d['sum'] = _sum
     d['mean'] = _mean
     d['amax'] = d['max'] = _minmax('max')
@@ -1203,6 +1228,29 @@ class _Expose(ast.NodeTransformer):
         s.generic_visit(node); return node
 
 
+_STDLIB_OK = {'itertools', 'operator', 'functools', 'collections'}
+
+
+def _bind_stdlib_imports(tree, path, ns):
+    """plain standard-library helpers the file imports at module level (itertools.product for nested loops, operator.lt in a
+    table, ...) are bound in the tracing namespace unless the name is bound already"""
+    for n in tree.body:
+        if isinstance(n, (ast.Import, ast.ImportFrom)):
+            root = (n.module or '') if isinstance(n, ast.ImportFrom) else ''
+            mods = [root] if isinstance(n, ast.ImportFrom) else [a.name for a in n.names]
+            if all(m.split('.')[0] in _STDLIB_OK for m in mods) and not (isinstance(n, ast.ImportFrom) and n.level):
+                bound = [(a.asname or a.name.split('.')[0]) for a in n.names]
+                if any(b not in ns for b in bound):
+                    mod = ast.Module([n], []); ast.fix_missing_locations(mod)
+                    tmp = {}
+                    try:
+                        exec(compile(mod, path, 'exec'), tmp)
+                        for b in bound:
+                            if b in tmp: ns.setdefault(b, tmp[b])
+                    except Exception:
+                        pass
+
+
 def load(relpath, names_, ns, cls=None, expose=None):
     """exec the named top-level function definitions of /repo/<relpath> inside ns (defaults that
     call into torch/np at definition time are evaluated under the shim as well)."""
@@ -1226,6 +1274,7 @@ def load(relpath, names_, ns, cls=None, expose=None):
     missing = set(names_) - found
     if missing:
         raise TraceError('%s: function(s) %s not found' % (relpath, sorted(missing)))
+    _bind_stdlib_imports(tree, path, ns)
     # module-level helpers of the same file that the namespace does not define yet (a private helper a refactoring introduces
     # must resolve when a traced function calls it); names the recipe or the shim already bound are left alone
     for n in tree.body:
@@ -1246,6 +1295,7 @@ def load_all(relpath, ns, skip=()):
     cannot be evaluated under the shim is skipped (it raises if it is ever needed: fail-closed)."""
     path = os.path.join(REPO, relpath)
     tree = ast.parse(open(path).read())
+    _bind_stdlib_imports(tree, path, ns)
     done = []
     for n in tree.body:
         if isinstance(n, ast.FunctionDef) and n.name not in skip:
